@@ -480,7 +480,12 @@ func writeUnionConverters(w *formatting.IndentedWriter, unionType *dsl.Generaliz
 					for i, c := range unionType.Cases {
 						fmt.Fprintf(w, "case %d:\n", i)
 						w.Indented(func() {
-							fmt.Fprintf(w, "j = ordered_json{ {\"%s\", std::get<%s>(value)} };\n", c.Tag, common.TypeSyntax(c.Type))
+							if c.IsNullType() {
+								// null is written as JSON null, not as a tagged object
+								w.WriteStringln("j = nullptr;")
+							} else {
+								fmt.Fprintf(w, "j = ordered_json{ {\"%s\", std::get<%s>(value)} };\n", c.Tag, common.TypeSyntax(c.Type))
+							}
 							w.WriteStringln("break;")
 						})
 					}
@@ -510,9 +515,20 @@ func writeUnionConverters(w *formatting.IndentedWriter, unionType *dsl.Generaliz
 
 				w.WriteStringln("throw std::runtime_error(\"Invalid union value\");")
 			} else {
+				if unionType.Cases.HasNullOption() {
+					w.WriteStringln("if (j.is_null()) {")
+					w.Indented(func() {
+						w.WriteStringln("value = std::monostate{};")
+						w.WriteStringln("return;")
+					})
+					w.WriteStringln("}")
+				}
 				w.WriteStringln("auto it = j.begin();")
 				w.WriteStringln("std::string tag = it.key();")
 				for _, v := range unionType.Cases {
+					if v.IsNullType() {
+						continue
+					}
 					fmt.Fprintf(w, "if (tag == \"%s\") {\n", v.Tag)
 					w.Indented(func() {
 						fmt.Fprintf(w, "value = it.value().get<%s>();\n", common.TypeSyntax(v.Type))
